@@ -258,7 +258,54 @@ def r2_lossy_ins(c, facts):
     c.extra['triage_rows_not_observed'] = [list(k) for k in stale]
 
 
+# frozen: what the combinators of spec.rs carry over (documented on the functions; one reason per row)
+COMBINE = [
+    ('oal_compiler::spec::Uri::append', 'params', (2, ('params',)), True, 'concat: "the parameters from `other` replace the parameters in `self`" (doc comment of Uri::append)'),
+    ('oal_compiler::<spec::Content as std::convert::From<spec::Schema>>::from', 'desc', (1, ('desc',)), False, 'a schema used directly as a content keeps its description as the description of the content'),
+    ('oal_compiler::<spec::Relation as std::convert::From<spec::Uri>>::from', 'uri', (1, ()), False, 'a URI used as a relation is the uri of that relation'),
+]
+
+
+def r12_combine(c, facts):
+    """the value combinators of spec.rs carry over exactly what the language says"""
+    R = c.rule('C02.R12', 'COMBINE: concat takes the right operand\'s query parameters; a schema used as content keeps its description; a URI used as relation is its uri')
+    for q, fld, (root, path), exclusive, why in COMBINE:
+        fn = c.anchor(R, q)
+        idx = MF.defs_index(fn)
+        srcs = None
+        for b, blk in fn.blocks():
+            for s in blk['stmts']:
+                if s['s'] != 'assign':
+                    continue
+                rv = s['rv']
+                # `self.fld = ..` or the field of the struct literal that is returned
+                if s['place']['proj'] and MF.field_path(s['place'])[-1:] == [fld] and rv['r'] == 'use' and 'l' in rv['op']:
+                    srcs = (srcs or set()) | MF.field_sources(fn, rv['op']['l'], idx) | ({(rv['op']['l'], tuple(x for x in MF.field_path(rv['op']) if not x.startswith('<')))} if 1 <= rv['op']['l'] <= fn.mir['argc'] else set())
+                    # computed by calls (`a.or(b)`): every operand the value derives from
+                    for a_ in MF.slice_back(fn, rv['op']['l'], idx)['args']:
+                        if not any(r == a_ for r, _ in srcs):
+                            srcs.add((a_, ('*',)))
+                if rv['r'] == 'aggr' and rv.get('ak') == 'adt' and fld in (rv.get('fields') or []):
+                    op = rv['ops'][rv['fields'].index(fld)]
+                    if 'l' in op:
+                        srcs = (srcs or set()) | MF.field_sources(fn, op['l'], idx) | ({(op['l'], tuple(x for x in MF.field_path(op) if not x.startswith('<')))} if 1 <= op['l'] <= fn.mir['argc'] else set())
+                        calls = {P.strip(n).split('::')[-1] for n, _, _ in MF.slice_back(fn, op['l'], idx)['calls']}
+                        if 'default' in calls and not srcs:
+                            srcs = {('default', ())}
+        inst = {'fn': q, 'field': fld, 'sources': sorted('%s%s' % ('arg%s' % r if isinstance(r, int) else r, ''.join('.' + x for x in p)) for r, p in (srcs or set())), 'why': why}
+        want = (root, tuple(path))
+        if not srcs:
+            c.bad(R, '%s:%s:not-set' % (q.split('::')[-2].split('<')[-1].split(' ')[0] + '::' + q.split('::')[-1], fld), '%s no longer sets `%s`' % (q, fld), **inst)
+        elif want not in srcs and not any(r == root and (tuple(p[:len(path)]) == tuple(path) or p == ('*',)) for r, p in srcs if isinstance(r, int)):
+            c.bad(R, '%s:%s:not-carried' % (q.split('::')[-1] if 'From' not in q else q.split(' as ')[0].split('<')[-1].split('::')[-1] + '::from', fld), '%s fills `%s` from %s instead of %s (%s)' % (q, fld, inst['sources'], 'argument %d%s' % (root, ''.join('.' + x for x in path)), why), **inst)
+        elif exclusive and any(isinstance(r, int) and r != root for r, p in srcs):
+            c.bad(R, '%s:%s:merged-with-other-operand' % (q.split('::')[-1], fld), '%s fills `%s` from %s: the other operand must not contribute (%s)' % (q, fld, inst['sources'], why), **inst)
+        else:
+            c.ok(R, inst)
+
+
 def run(c, facts):
+    c.run(r12_combine, facts)
     import c08
     import c09
     import c10
